@@ -310,6 +310,18 @@ func c16AfterInterruption(w *c16World, tg c16Target, reported bool, rng *kit.Ran
 			if ci := w.issue(can[len(can)-1], false); ci >= 0 {
 				w.revoke(ci, "serial")
 				w.check("after follow-up revocation")
+				// once more through the already-revoked branch: success again, and whatever the current
+				// configuration obliges must hold after this call too
+				w.revoke(ci, "serial-hyphen")
+				w.check("after repeated follow-up revocation")
+				if w.cfg.Auto && !w.cfg.Disable {
+					// under auto-rebuild the fresh revocation is published by an explicit rotation: a new
+					// complete CRL, listing more than the previous one, with a larger number
+					if w.rotate() {
+						r.Count("rotations_after_interruption_under_auto_rebuild", 1)
+						w.check("after second follow-up rotation")
+					}
+				}
 			}
 		}
 	}
@@ -504,6 +516,7 @@ func c16Run(t *testing.T, mode string, r *kit.Result, seed int64) {
 }
 
 func TestVerif_C16_Faults(t *testing.T) {
+	t.Parallel() // the three monitors share nothing but the read-only scenario definitions
 	seed := kit.Seed(16)
 	r := kit.NewResult(t, "c16-faults", seed, "for each scenario (revocation through every route, under manual and auto+delta rebuild, of a bring-your-own certificate, of an intermediate issuer, with the issuer removed, re-revocation; crl/rotate; tidy removing an expired entry; re-enabling CRL building; auto->manual; plus generated history prefixes followed by one more revocation) every storage operation the target performs fails once (named structurally: n-th op of a key class); the client retries until success is reported; the oracle runs after the fault, after the retry and after a follow-up rotation, fresh revocation, issuer re-import, switch to manual rebuild and restart; a case is one (scenario, fault point) and is non-trivial when the fault actually fired inside the target operation")
 	defer r.Write(t)
@@ -528,6 +541,7 @@ func TestVerif_C16_Faults(t *testing.T) {
 }
 
 func TestVerif_C16_Crash(t *testing.T) {
+	t.Parallel() // the three monitors share nothing but the read-only scenario definitions
 	seed := kit.Seed(16)
 	r := kit.NewResult(t, "c16-crash", seed, "for each scenario of the fault monitor the target's storage writes are journalled in a dry run; for every prefix of that write sequence (including none and all) the prefix is applied to a copy of the store, a new backend instance is created on it (Factory + Initialize), the oracle checks that earlier revocations survived, the client retries the operation until success is reported, and the oracle runs again, also after a follow-up rotation, fresh revocation, issuer re-import, switch to manual rebuild and another restart; a case is one (scenario, write prefix) and is non-trivial when the cut lies strictly inside the write sequence")
 	defer r.Write(t)
